@@ -53,8 +53,14 @@ func mergeIter[T any](it0, it1 ociregistry.Seq[T], cmp func(T, T) int) ociregist
 	xs0, err0 := ociregistry.All(it0)
 	xs1, err1 := ociregistry.All(it1)
 	if err0 != nil || err1 != nil {
-		notFound0 := errors.Is(err0, ociregistry.ErrNameUnknown)
-		notFound1 := errors.Is(err1, ociregistry.ErrNameUnknown)
+		// A registry that says "name unknown" without having produced
+		// anything doesn't know the repository, which is fine as long
+		// as the other one does. If it has already produced some items,
+		// its listing has broken off (the repository might have been
+		// removed while we were reading it) and that's an error
+		// like any other.
+		notFound0 := errors.Is(err0, ociregistry.ErrNameUnknown) && len(xs0) == 0
+		notFound1 := errors.Is(err1, ociregistry.ErrNameUnknown) && len(xs1) == 0
 		if notFound0 && notFound1 {
 			return ociregistry.ErrorSeq[T](err0)
 		}
